@@ -350,10 +350,11 @@ impl Space {
 			let s = &seeds[*lay as usize].1;
 			if kind_of(s) == TKind::Ser {
 				let both = matches!(op, Op::Set { .. });
-				let vers: Vec<u32> = if thorough {
-					VERSIONS.to_vec()
-				} else if matches!(op, Op::Ident { .. }) {
+				let vers: Vec<u32> = if matches!(op, Op::Ident { .. }) {
+					// (the identifier's encoding does not depend on the protocol version)
 					vec![s.ver]
+				} else if thorough {
+					VERSIONS.to_vec()
 				} else {
 					let other = VERSIONS[j % 4];
 					if other == s.ver {
